@@ -429,7 +429,15 @@ func (fw *fsmWorld) apply(c *fsmChan, k opKind, a opArgs) error {
 	case opPauseR:
 		err = cs.PauseResponder(id)
 	case opResumeI:
+		// a party whose own transfer is still in progress can always clear its own pause flag (C11)
+		pre, preErr := fw.get(c, "GetByID")
 		err = cs.ResumeInitiator(id)
+		if preErr == nil && err == nil && pre.IPaused && pre.Status.Transferring() {
+			if post, e2 := fw.get(c, "GetByID"); e2 == nil && post.IPaused && post.Status == pre.Status {
+				fw.r.Failf("C11", "resume-ignored-while-transferring", datatransfer.Statuses[pre.Status], "channel %d (%s): the initiator is paused and the channel is %s (data still moving), yet ResumeInitiator left InitiatorPaused set", c.chid.ID, roleNames[c.role], datatransfer.Statuses[pre.Status])
+			}
+			fw.r.Probe("resume-while-transferring")
+		}
 	case opResumeR:
 		err = cs.ResumeResponder(id)
 	case opNewVoucher:
